@@ -20,7 +20,7 @@ ACTIONS = ["GetCall", "GetLock", "GetPop", "GetCreateBegin", "GetCreateEnd", "Ge
 
 # (cfg, workers); every cfg is a complete (exhaustive) exploration of its instance
 MC = {
-    "quick": [("MC_Pool.cfg", 6), ("MC_Pool_reset.cfg", 3), ("MC_Pool_outside.cfg", 3), ("MC_Pool_forget.cfg", 2)],
+    "quick": [("MC_Pool.cfg", 4), ("MC_Pool_reset.cfg", 2), ("MC_Pool_outside.cfg", 2), ("MC_Pool_forget.cfg", 1)],
     "thorough": [("MC_Pool_thorough4.cfg", 8), ("MC_Pool_thorough.cfg", 6), ("MC_Pool_reset_thorough.cfg", 3),
                  ("MC_Pool_outside_thorough.cfg", 3), ("MC_Pool_forget_thorough.cfg", 3), ("MC_Pool_forget_thorough3.cfg", 3),
                  ("MC_Pool.cfg", 2), ("MC_Pool_reset.cfg", 2), ("MC_Pool_outside.cfg", 2), ("MC_Pool_forget.cfg", 2)],
@@ -42,6 +42,17 @@ EXPECT_POINT = {"GetCall": ("get_want",), "GetLock": ("get_cs",), "GetPop": ("ge
                 "Use": ("used",), "DropCall": ("drop_want",), "DropLock": ("drop_cs",), "DropPush": ("drop_post",),
                 "DropReturn": ("idle", "done"), "Forget": ("idle", "done")}
 MAIN_OPS = {"PoolReset": "reset", "PoolResetToStart": "reset_to_start", "PoolDrop": "drop"}
+
+_vlib_tlc = tlc
+
+
+def tlc(*a, **kw):
+    """vlib.tlc with a small JVM footprint: this check runs a dozen TLC processes at a time (model checking, schedule
+    emission, trace validation parts), each of which would otherwise start one GC and JIT thread per core."""
+    env = dict(kw.pop("env", None) or {})
+    env.setdefault("JAVA_TOOL_OPTIONS", "-XX:ParallelGCThreads=2 -XX:CICompilerCount=2")
+    return _vlib_tlc(*a, env=env, **kw)
+
 
 _COV = re.compile(r"^<(\w+) line \d+, col \d+ to line \d+, col \d+ of module Pool(?: \([\d ]+\))?>: (\d+):(\d+)", re.M)
 
@@ -65,7 +76,7 @@ def model_check(tier, ex):
     """Returns (futures) -- submitted to executor ex so that it overlaps with the cargo build and the emission."""
     thorough = tier == "thorough"
     futs = [ex.submit(_mc_one, (cfg, w, thorough)) for (cfg, w) in MC[tier]]
-    futs.append(ex.submit(lambda: ("MC_Pool_live.cfg", tlc("MC_Pool", "MC_Pool_live.cfg", workers=2, timeout=900), {})))
+    futs.append(ex.submit(lambda: ("MC_Pool_live.cfg", tlc("MC_Pool", "MC_Pool_live.cfg", workers=1, timeout=900), {})))
     futs.append(ex.submit(lambda: ("MC_Pool_naive.cfg", tlc("MC_Pool", "MC_Pool_naive.cfg", workers=1, timeout=600), {})))
     return futs
 
@@ -112,7 +123,7 @@ def _emit_one(args):
             r = tlc("MC_PoolSched", cfg, workers=1, timeout=2400 if thorough else 600, simulate=sim, depth=1500,
                     seed_=sd + k, xmx="4g", metadir=workdir("tlc-poolemit-%d-%d" % (os.getpid(), k)))
         else:
-            r = tlc("MC_PoolSched", cfg, workers=2, timeout=2400 if thorough else 600, xmx="6g",
+            r = tlc("MC_PoolSched", cfg, workers=2 if thorough else 1, timeout=2400 if thorough else 600, xmx="6g",
                     metadir=workdir("tlc-poolemit-%d-%d" % (os.getpid(), k)))
     finally:
         os.unlink(os.path.join(SPEC, cfg))
@@ -488,7 +499,7 @@ def check_c19(tier):
     wd = workdir("%s-%d" % (PID, os.getpid()))
     sd = seed()
     rng = random.Random(sd)
-    with ThreadPoolExecutor(max_workers=16) as ex:
+    with ThreadPoolExecutor(max_workers=9) as ex:
         mc_futs = model_check(tier, ex)
         emit_futs = [ex.submit(_emit_one, (k, e, sd * 1000, thorough)) for k, e in enumerate(EMIT[tier])]
         bins = cargo_build("pool", jobs=6)
